@@ -159,8 +159,18 @@ def build_universe(seed, tier):
     U_hist = []
     extra_fns = []
     nh = 10 if tier == "quick" else 60
-    for hid in range(nh):
-        if hid == 0:
+    for hid in range(nh + 1):
+        if hid == nh:
+            # fixed history "Reuse" (found by the thorough tier, see known finding K16): a field is removed (AbiRemoved)
+            # and a new field of the same size is added, so that the native layouts of version 0 and version 1 are
+            # byte-identical while their fields mean different things
+            r_a, r_b = F("f1", I("u8")), F("f2", I("u8"))
+            r_a1 = dict(r_a)
+            r_a1.update({"kind": "abiremoved", "to": 0, "default": ("int", 0)})
+            r_c = F("f3", I("u8"), frm=1)
+            h = {"id": nh, "edits": [("remove", 0, True), ("add", 1, "f3")],
+                 "types": [S("H%dV0" % nh, [dict(r_a), dict(r_b)], "Rust"), S("H%dV1" % nh, [r_a1, r_c, dict(r_b)], "Rust")]}
+        elif hid == 0:
             # fixed history "Pad": a repr(C) struct whose added field lands in the tail padding of the older layout
             # (same size, alignment and offsets of the shared fields on both sides)
             f_a, f_b = F("f1", I("u32")), F("f2", I("u8"))
@@ -237,7 +247,7 @@ def write_sources(seed, tier):
     from . import abigen
     fams = abigen.families(U)
     if tier == "quick":
-        fams = fams[:6]
+        fams = fams[:5] + fams[-1:]
     abi_text = abigen.render(U, fams)
     ABI_RS = os.path.join(C.HARNESS, "src", "gen_abi", "mod.rs")
     with C.Lock("gen"):
@@ -262,7 +272,7 @@ def ensure(seed, tier, extra_roots_fn=None):
     from . import abigen
     U["families"] = abigen.families(U)
     if tier == "quick":
-        U["families"] = U["families"][:6]
+        U["families"] = U["families"][:5] + U["families"][-1:]
     abi_text = abigen.render(U, U["families"])
     ABI_RS = os.path.join(C.HARNESS, "src", "gen_abi", "mod.rs")
     with C.Lock("gen"):
